@@ -16,9 +16,10 @@ AllMod == [kind : {"m"}, name : 1..NN, op : ModOps, val : 1..NV, sp : 0..1, sep 
 \* lists of two or three edits are built from a strided sub-family (every form x form x separator combination still occurs)
 Sub(S, a) == LET q == SetToSeq(S) IN SelectSeq(q, LAMBDA e : (e.val + 2 * e.name + 3 * e.sep + e.sp) % Stride = a)
 
-\* A value that begins with '(' is parsed with the full language, and not only up to its ')': without a comma a following computed
-\* edit ('&name=') continues it as a bitwise operator, and a following name that begins like a dice operator ('dex') as a dice term.
-\* The edit list says otherwise (known finding KF-C18-1): such lists are generated and marked, not left out.
+\* A value that begins with '(' used to be parsed with the full language, and not only up to its ')': without a comma a following
+\* computed edit ('&name=') continued it as a bitwise operator, and a following name that begins like a dice operator ('dex') as a dice
+\* term.  The edit list says otherwise; such lists are generated and marked (an earlier version of this module left them out, which
+\* was the specification following the code).  Repaired in the repository: parentheses restore the flags for what is inside them only.
 IsParen(v) == Values[v].src \in {"(1+2)", "(2*3)"}
 RunsOn(es) == \E i \in 1..(Len(es) - 1) :
                 /\ IsParen(es[i].val) /\ es[i].sep \in {0, 1}
